@@ -27,6 +27,7 @@ func main() {
 	dump := flag.String("dump", "", "debug: templates|jsfree")
 	mutant := flag.String("mutant", "", "self-test: apply mutant <id> through an in-memory overlay")
 	noEvidence := flag.Bool("no-evidence", false, "do not write evidence/replay files (self-test)")
+	renames := flag.Bool("renames", false, "debug: list local variables of the functions carrying obligations (input of tools/rename_fuzz.py)")
 	listObs := flag.Bool("list", false, "debug: print every obligation (rule, key, verdict, site)")
 	listMutants := flag.Bool("list-mutants", false, "list mutant ids for -property")
 	var overlays multiFlag
@@ -139,6 +140,10 @@ func main() {
 		}
 	}
 	runRules()
+	if *renames {
+		rules.DumpRenames(c, r.Obs)
+		return
+	}
 	if *listObs {
 		for _, o := range r.Obs {
 			fmt.Printf("%s\t%s\t%s\t%s\n", o.Rule, o.Key, o.Verdict, o.Site)
